@@ -94,6 +94,9 @@ CheckRange(c) ==
     ELSE IF c.outcome2 # "ok" THEN "rej:C18_RangeMakesItFail"
     ELSE IF ~StreamWellFormed(c.stream) \/ ~StreamWellFormed(c.stream2) THEN "skip:StreamNotWellFormed"
     ELSE IF Len(Decode(c.stream2)) # Len(Decode(c.stream)) THEN "rej:C08_Count|also:C18_Tagging"
+    ELSE IF \E n \in DOMAIN Decode(c.stream) : Decode(c.stream2)[n].addr # Decode(c.stream)[n].addr
+                                                \/ Decode(c.stream2)[n].mn # Decode(c.stream)[n].mn
+         THEN "rej:C08_AddrMnemonic|also:C18_Tagging"
     ELSE IF ~AllowedTagging(Decode(c.stream), Decode(c.stream2), c.range[1], c.range[2]) THEN "rej:C18_Tagging"
     ELSE IF Decode(c.stream) = Decode(c.stream2) THEN "ok:untagged" ELSE "ok:tagged"
 
